@@ -64,7 +64,8 @@ namespace T
       G_MUST = 32768,   // must<> alone (also part of G_CONV)
       G_FILL = 65536,   // filler leaves for ill-formed grammar families (C11)
       G_META = 131072,  // action<> / control<> wrappers, raw_string with content rule
-      G_PRED = 262144   // contrib predicates (also part of G_CONTRIB)
+      G_PRED = 262144,  // contrib predicates (also part of G_CONTRIB)
+      G_RAW = 524288    // raw_string alone (also part of G_CONTRIB)
    };
 #ifndef VERIF_GROUPS
 #define VERIF_GROUPS ( T::G_CORE | T::G_HOLE )
@@ -443,7 +444,7 @@ namespace T
    A0( INT_S, G_CONTRIB, ( p::signed_rule ) ) \
    A0( INT_MAX8, G_CONTRIB, ( p::maximum_rule< std::uint8_t > ) ) \
    A0( INT_MAX300, G_CONTRIB, ( p::maximum_rule< std::uint16_t, 300 > ) ) \
-   A0( RAW, G_CONTRIB, ( raw_t ) ) \
+   A0( RAW, ( G_CONTRIB | G_RAW ), ( raw_t ) ) \
    A0( PRED_AND, ( G_CONTRIB | G_PRED ), ( p::predicates_and< p::range< 'a', 'c' >, p::not_one< 'b' > > ) ) \
    A0( PRED_NOT, ( G_CONTRIB | G_PRED ), ( p::predicate_not< p::one< 'a' > > ) ) \
    A0( PRED_OR, ( G_CONTRIB | G_PRED ), ( p::predicates_or< p::one< 'a' >, p::one< 'c' > > ) ) \
